@@ -32,7 +32,8 @@ theorem repeatP_spec' {α : Type} (p : P α) (wr : α → Bytes) (φ : α → Pr
 /-- what `deserializationUnsigned` guarantees -/
 def WfHU (u : HeaderU) : Prop :=
   u.version < 256 ^ 4 ∧ u.prevHash.length = 32 ∧ u.txRoot.length = 32 ∧ u.blockRoot.length = 32 ∧
-  u.timestamp < 256 ^ 4 ∧ u.height < 256 ^ 4 ∧ u.consensusData < 256 ^ 8 ∧ u.nextBookkeeper.length = 20
+  u.timestamp < 256 ^ 4 ∧ u.height < 256 ^ 4 ∧ u.consensusData < 256 ^ 8 ∧ u.nextBookkeeper.length = 20 ∧
+  u.consensusPayload.length < two64
 
 theorem parseHeaderUnsigned_spec (s : Src) (w : s.wf) :
     SpecAt parseHeaderUnsigned s (fun u s' => seg s s' = serHeaderU u ∧ WfHU u) := by
@@ -51,12 +52,12 @@ theorem parseHeaderUnsigned_spec (s : Src) (w : s.wf) :
   intro ht s6 h6 adv6 acc6
   apply enc_step adv6 acc6 (rUintN_spec 8 (by unfold two64; omega) s6 (adv6.wf w))
   intro cd s7 h7 adv7 acc7
-  apply enc_step adv7 acc7 (rVarBytes_spec true s7 (adv7.wf w))
-  intro cp s8 _ adv8 acc8
+  apply enc_step adv7 acc7 (rVarBytes_spec2 true s7 (adv7.wf w))
+  intro cp s8 h8 adv8 acc8
   apply enc_step adv8 acc8 (rBytesN_spec 20 (by unfold two64; omega) s8 (adv8.wf w))
   intro nb s9 h9 adv9 acc9
   apply spec_pure (adv9.wf w)
-  refine ⟨?_, h1, h2, h3, h4, h5, h6, h7, h9⟩
+  refine ⟨?_, h1, h2, h3, h4, h5, h6, h7, h9, h8⟩
   rw [acc9]
   simp [serHeaderU, writeUintN]
 
@@ -161,5 +162,227 @@ theorem parseTxs_spec (R : Rlp) (hs : Hashes) (n : Nat) (seen : List Bytes) (hse
       rw [seg_trans adv1 adv2, hraw hR, hsegr hR]
       simp
 
+
+/-- postcondition of `Block.Deserialization` -/
+def BlockPost (V : Variant) (K : Keys) (R : Rlp) (hs : Hashes) (s : Src) (b : Block) (s' : Src) : Prop :=
+  ∃ s1, Adv s s1 ∧ Adv s1 s' ∧ HeaderPost V K s b.header s1 ∧
+    b.txs.length < 256 ^ 4 ∧
+    (b.txs.map hs.txHash).Nodup ∧
+    b.header.u.txRoot = computeMerkleRoot hs.node (b.txs.map hs.txHash) ∧
+    (R.canonical → seg s1 s' = writeUintN 4 b.txs.length ++ (b.txs.map (·.raw)).flatten)
+
+theorem parseBlock_spec (V : Variant) (K : Keys) (R : Rlp) (hs : Hashes) (s : Src) (w : s.wf) :
+    SpecAt (parseBlock V K R hs) s (BlockPost V K R hs s) := by
+  unfold parseBlock
+  apply spec_bind' (parseHeader_spec V K s w)
+  intro h s1 adv1 hpost
+  apply enc_step (Adv.refl (adv1.wf w)) (seg_self s1) (rUintN_spec 4 (by unfold two64; omega) s1 (adv1.wf w))
+  intro n s2 hn adv2 acc2
+  apply spec_bind' (parseTxs_spec R hs n [] List.nodup_nil s2 (adv2.wf (adv1.wf w)))
+  intro txs s3 adv3 ⟨hl, hnd, hseg⟩
+  try dsimp only
+  split
+  · exact spec_fail_bind
+  rename_i hroot
+  have hroot' : h.u.txRoot = computeMerkleRoot hs.node (txs.map hs.txHash) := by simpa using hroot
+  apply spec_pure ((adv2.trans adv3).wf (adv1.wf w))
+  refine ⟨s1, adv1, adv2.trans adv3, hpost, by rw [hl]; exact hn, by simpa using hnd, hroot', ?_⟩
+  intro hR
+  rw [seg_trans adv2 adv3, acc2, hseg hR, hl]
+  simp [writeUintN]
+
+
+/-- the unsigned header serialisation determines every unsigned field -/
+theorem serHeaderU_inj (u v : HeaderU) (hu : WfHU u) (hv : WfHU v)
+    (h : serHeaderU u = serHeaderU v) : u = v := by
+  obtain ⟨u1, u2, u3, u4, u5, u6, u7, u8, lu⟩ := hu
+  obtain ⟨v1, v2, v3, v4, v5, v6, v7, v8, lv⟩ := hv
+  unfold serHeaderU writeUintN at h
+  simp only [List.append_assoc] at h
+  obtain ⟨e1, h⟩ := List.append_inj h (by simp [leN_length])
+  obtain ⟨e2, h⟩ := List.append_inj h (by rw [u2, v2])
+  obtain ⟨e3, h⟩ := List.append_inj h (by rw [u3, v3])
+  obtain ⟨e4, h⟩ := List.append_inj h (by rw [u4, v4])
+  obtain ⟨e5, h⟩ := List.append_inj h (by simp [leN_length])
+  obtain ⟨e6, h⟩ := List.append_inj h (by simp [leN_length])
+  obtain ⟨e7, h⟩ := List.append_inj h (by simp [leN_length])
+  obtain ⟨e8, e9⟩ := writeVarBytes_prefix_inj _ _ lu lv _ _ h
+  have f1 := leN_inj 4 _ _ u1 v1 e1
+  have f5 := leN_inj 4 _ _ u5 v5 e5
+  have f6 := leN_inj 4 _ _ u6 v6 e6
+  have f7 := leN_inj 8 _ _ u7 v7 e7
+  cases u; cases v
+  simp only at f1 e2 e3 e4 f5 f6 f7 e8 e9
+  subst f1 e2 e3 e4 f5 f6 f7 e8 e9
+  rfl
+
+/-! ### The duplicate-last merkle tree -/
+
+/-- no two different pairs have the same node hash -/
+def NodeInj (node : Bytes → Bytes → Bytes) : Prop := ∀ a b c d, node a b = node c d → a = c ∧ b = d
+
+theorem level_length (node : Bytes → Bytes → Bytes) : ∀ l : List Bytes, (level node l).length = (l.length + 1) / 2
+  | [] => rfl
+  | [a] => by simp [level]
+  | a :: b :: r => by
+    simp only [level, List.length_cons, level_length node r]
+    omega
+
+theorem mem_level (node : Bytes → Bytes → Bytes) : ∀ (l : List Bytes) (x : Bytes), x ∈ level node l →
+    ∃ p q, p ∈ l ∧ x = node p q
+  | [], x, h => by simp [level] at h
+  | [a], x, h => by
+    simp only [level, List.mem_singleton] at h
+    exact ⟨a, a, by simp, h⟩
+  | a :: b :: r, x, h => by
+    simp only [level, List.mem_cons] at h
+    rcases h with h | h
+    · exact ⟨a, b, by simp, h⟩
+    · obtain ⟨p, q, hp, hx⟩ := mem_level node r x h
+      exact ⟨p, q, by simp [hp], hx⟩
+
+theorem level_nodup (node : Bytes → Bytes → Bytes) (inj : NodeInj node) :
+    ∀ l : List Bytes, l.Nodup → (level node l).Nodup
+  | [], _ => by simp [level]
+  | [a], _ => by simp [level]
+  | a :: b :: r, h => by
+    simp only [level]
+    rw [List.nodup_cons] at h ⊢
+    obtain ⟨ha, hr⟩ := h
+    rw [List.nodup_cons] at hr
+    refine ⟨?_, level_nodup node inj r hr.2⟩
+    intro hm
+    obtain ⟨p, q, hp, hx⟩ := mem_level node r _ hm
+    have := (inj _ _ _ _ hx).1
+    subst this
+    exact ha (by simp [hp])
+
+/-- one level is injective on duplicate-free lists -/
+theorem level_inj (node : Bytes → Bytes → Bytes) (inj : NodeInj node) :
+    ∀ xs ys : List Bytes, xs.Nodup → ys.Nodup → level node xs = level node ys → xs = ys
+  | [], [], _, _, _ => rfl
+  | [], [b], _, _, h => by simp [level] at h
+  | [], b :: c :: r, _, _, h => by simp [level] at h
+  | [a], [], _, _, h => by simp [level] at h
+  | a :: b :: r, [], _, _, h => by simp [level] at h
+  | [a], [b], _, _, h => by
+    simp only [level, List.cons.injEq, and_true] at h
+    rw [(inj _ _ _ _ h).1]
+  | [a], b :: c :: r, _, hy, h => by
+    exfalso
+    simp only [level, List.cons.injEq] at h
+    obtain ⟨h1, h2⟩ := h
+    have := inj _ _ _ _ h1
+    have hbc : b = c := by rw [← this.1, ← this.2]
+    subst hbc
+    simp at hy
+  | a :: b :: r, [c], hx, _, h => by
+    exfalso
+    simp only [level, List.cons.injEq] at h
+    obtain ⟨h1, h2⟩ := h
+    have := inj _ _ _ _ h1
+    have hab : a = b := by rw [this.1, this.2]
+    subst hab
+    simp at hx
+  | a :: b :: r, c :: d :: r', hx, hy, h => by
+    simp only [level, List.cons.injEq] at h
+    obtain ⟨h1, h2⟩ := h
+    obtain ⟨e1, e2⟩ := inj _ _ _ _ h1
+    subst e1 e2
+    have hx' : r.Nodup := by
+      rw [List.nodup_cons, List.nodup_cons] at hx; exact hx.2.2
+    have hy' : r'.Nodup := by
+      rw [List.nodup_cons, List.nodup_cons] at hy; exact hy.2.2
+    rw [level_inj node inj r r' hx' hy' h2]
+
+/-- `k` rounds of pairing -/
+def iter (node : Bytes → Bytes → Bytes) : Nat → List Bytes → List Bytes
+  | 0, l => l
+  | k+1, l => level node (iter node k l)
+
+theorem iter_succ' (node : Bytes → Bytes → Bytes) (k : Nat) (l : List Bytes) :
+    iter node (k+1) l = iter node k (level node l) := by
+  induction k with
+  | zero => rfl
+  | succ k ih =>
+    show level node (iter node (k+1) l) = level node (iter node k (level node l))
+    rw [ih]
+
+theorem iter_nodup (node : Bytes → Bytes → Bytes) (inj : NodeInj node) (k : Nat) (l : List Bytes) (h : l.Nodup) :
+    (iter node (k) l).Nodup := by
+  induction k generalizing l with
+  | zero => exact h
+  | succ k ih =>
+    exact level_nodup node inj _ (ih l h)
+
+/-- equal iterates of duplicate-free lists: either the same depth and the same list, or one list is an inner level
+of the other tree -/
+theorem iter_eq (node : Bytes → Bytes → Bytes) (inj : NodeInj node) (xs ys : List Bytes) (hx : xs.Nodup) (hy : ys.Nodup) :
+    ∀ i j : Nat, iter node (i) xs = iter node (j) ys →
+      xs = ys ∨ (∃ d, d > 0 ∧ xs = iter node (d) ys) ∨ (∃ d, d > 0 ∧ ys = iter node (d) xs)
+  | 0, 0, h => Or.inl h
+  | 0, j+1, h => Or.inr (Or.inl ⟨j+1, by omega, h⟩)
+  | i+1, 0, h => Or.inr (Or.inr ⟨i+1, by omega, h.symm⟩)
+  | i+1, j+1, h => by
+    exact iter_eq node inj xs ys hx hy i j
+      (level_inj node inj _ _ (iter_nodup node inj i xs hx) (iter_nodup node inj j ys hy) h)
+
+theorem rootFuel_iter (node : Bytes → Bytes → Bytes) : ∀ (f : Nat) (l : List Bytes), l ≠ [] → l.length ≤ f + 1 →
+    ∃ k, iter node (k) l = [rootFuel node f l]
+  | 0, l, hne, hl => by
+    match l, hne, hl with
+    | [a], _, _ => exact ⟨0, rfl⟩
+    | a :: b :: r, _, hl => simp at hl
+  | f+1, l, hne, hl => by
+    match l, hne, hl with
+    | [a], _, _ => exact ⟨0, rfl⟩
+    | a :: b :: r, _, hl =>
+      have hlen : (level node (a :: b :: r)).length ≤ f + 1 := by
+        rw [level_length]; simp only [List.length_cons] at hl ⊢; omega
+      have hne' : level node (a :: b :: r) ≠ [] := by simp [level]
+      obtain ⟨k, hk⟩ := rootFuel_iter node f (level node (a :: b :: r)) hne' hlen
+      exact ⟨k+1, by rw [iter_succ']; exact hk⟩
+
+theorem root_iter (node : Bytes → Bytes → Bytes) (l : List Bytes) (hne : l ≠ []) :
+    ∃ k, iter node (k) l = [computeMerkleRoot node l] :=
+  rootFuel_iter node l.length l hne (by omega)
+
+theorem root_nil (node : Bytes → Bytes → Bytes) : computeMerkleRoot node [] = zeroHash := rfl
+
+/-- an element of an inner level is a node hash -/
+theorem iter_mem_node (node : Bytes → Bytes → Bytes) (d : Nat) (hd : d > 0) (l : List Bytes) (x : Bytes)
+    (h : x ∈ iter node (d) l) : ∃ p q, x = node p q := by
+  obtain ⟨d', rfl⟩ : ∃ d', d = d' + 1 := ⟨d - 1, by omega⟩
+  obtain ⟨p, q, _, hx⟩ := mem_level node _ x h
+  exact ⟨p, q, hx⟩
+
+
+theorem header_post_of_ok {V : Variant} {K : Keys} {s : Src} (w : s.wf) {h : Header} {s' : Src}
+    (hp : parseHeader V K s = .ok h s') : Adv s s' ∧ HeaderPost V K s h s' := by
+  have := parseHeader_spec V K s w
+  unfold SpecAt at this
+  rw [hp] at this
+  exact this
+
+theorem block_post_of_ok {V : Variant} {K : Keys} {R : Rlp} {hs : Hashes} {s : Src} (w : s.wf) {b : Block} {s' : Src}
+    (hp : parseBlock V K R hs s = .ok b s') : Adv s s' ∧ BlockPost V K R hs s b s' := by
+  have := parseBlock_spec V K R hs s w
+  unfold SpecAt at this
+  rw [hp] at this
+  exact this
+
+/-- the wire form of a list equals the encoder's output when the announced count is the number of entries -/
+theorem wireList_eq_serList (count : Nat) (l : List Bytes) (h : l.length = count) : wireList count l = serList l := by
+  unfold wireList serList
+  rw [h]
+
+theorem header_reencode {V : Variant} {K : Keys} {s : Src} {h : Header} {s' : Src}
+    (post : HeaderPost V K s h s') (hc : h.bookkeepers = h.bkRaw)
+    (hn : loopCount V h.bkCount = h.bkCount) (hm : loopCount V h.sigCount = h.sigCount) :
+    serHeader h = seg s s' := by
+  obtain ⟨hseg, _, hbl, hsl, _, _, _⟩ := post
+  rw [hseg]
+  unfold serHeader
+  rw [hc, wireList_eq_serList _ _ (by rw [hbl, hn]), wireList_eq_serList _ _ (by rw [hsl, hm])]
 
 end OntVerif.Proofs.Block
